@@ -105,6 +105,44 @@ def specPagerank (g : Graph Rat) (a : Rat) (w : Weights Rat) (x : List Rat) (eps
     let d := l1 n (fun i => x.getD i 0) prf
     if d ≤ eps then "holds" else s!"fails l1={approx d} eps={approx eps} want={",".intercalate (pr.map approx)}"
 
+
+/-! ### Katz, closeness, betweenness, HITS -/
+
+/-- relative closeness of an implementation output to the exact value: `|x - want| ≤ eps (1 + |want|)` everywhere -/
+def closeTo (n : Nat) (x : List Rat) (want : Nat → Rat) (eps : Rat) : String :=
+  if x.length != n then s!"fails length={x.length}" else
+  match (List.range n).find? (fun i => Rat.abs (x.getD i 0 - want i) > eps * (1 + Rat.abs (want i))) with
+  | none => "holds"
+  | some i => s!"fails at={i} got={approx (x.getD i 0)} want={",".intercalate ((List.range n).map fun j => approx (want j))}"
+
+def nbrOf (g : Graph Rat) (i : Nat) : List Nat := (g.row i).map (·.1)
+
+def showOptList : Except PyErr (Option (List Rat)) → String
+  | .error e => showErr e
+  | .ok none => "fuel"
+  | .ok (some l) => "ok " ++ showRatList l
+
+/-- rectangular matrix for HITS -/
+def denseRect (c : Csr Rat) : Array (Array Rat) := Id.run do
+  let mut m : Array (Array Rat) := Array.replicate c.nRow (Array.replicate c.nCol 0)
+  for i in [0:c.nRow] do
+    for p in c.row i do
+      m := m.modify i (fun r => r.modify p.1 (· + p.2))
+  return m
+
+/-- all pivots of the elimination without pivoting are positive: the symmetric matrix is positive definite -/
+def isPosDef (n : Nat) (A : Array (Array Rat)) : Bool := Id.run do
+  let mut M := A
+  for c in [0:n] do
+    let piv := (M.getD c #[]).getD c 0
+    if piv ≤ 0 then return false
+    let rowc := M.getD c #[]
+    for r in [c+1:n] do
+      let f := (M.getD r #[]).getD c 0 / piv
+      if f != 0 then
+        M := M.setIfInBounds r ((Array.range n).map fun k => (M.getD r #[]).getD k 0 - f * rowc.getD k 0)
+  return true
+
 def handle : Handler
   /- spec: `x` (implementation output, exact rationals) is within `eps` (ℓ1) of the PageRank vector -/
   | "c04.spec_pr", [n, ip, ix, dt, a, wk, wkeys, wvals, x, eps] => some <| Option.getD (do
@@ -194,6 +232,80 @@ def handle : Handler
       match pushPagerank g rev deg seeds a tol (100 * (g.n + 1) * (g.n + 1)) with
       | none => some "fuel"
       | some r => some ("ok " ++ showRatList r)) "bad-args"
+  /- Katz: model (Horner on the boolean transposed adjacency), exact arithmetic -/
+  | "c04.katz", [n, ip, ix, dt, a, k] => some <| Option.getD (do
+      let g ← graphRat? n ip ix dt
+      let a ← rat? a
+      let k ← k.toNat?
+      let m := denseOf g
+      some ("ok " ++ showRatList (katz g.n (edgeOfDense m) a k))) "bad-args"
+  /- Katz: the walk-count definition evaluated on an output -/
+  | "c04.spec_katz", [n, ip, ix, dt, a, k, x, eps] => some <| Option.getD (do
+      let g ← graphRat? n ip ix dt
+      let a ← rat? a
+      let k ← k.toNat?
+      let x ← ratList? x
+      let eps ← rat? eps
+      let m := denseOf g
+      some (closeTo g.n x (RankSpec.katzSpec g.n (edgeOfDense m) a k) eps)) "bad-args"
+  | "c04.closeness", [n, ip, ix, dt] => some <| Option.getD (do
+      let g ← graphRat? n ip ix dt
+      let m := denseOf g
+      let nnz := ((List.range g.n).map fun i => (g.row i).length).sum
+      some (showOptList (closenessFit (α := Rat) g.n nnz (edgeOfDense m)))) "bad-args"
+  | "c04.spec_closeness", [n, ip, ix, dt, x, eps] => some <| Option.getD (do
+      let g ← graphRat? n ip ix dt
+      let x ← ratList? x
+      let eps ← rat? eps
+      let m := denseOf g
+      some (closeTo g.n x (RankSpec.closenessSpec g.n (edgeOfDense m)) eps)) "bad-args"
+  | "c04.betweenness", [n, ip, ix, dt] => some <| Option.getD (do
+      let g ← graphRat? n ip ix dt
+      let m := denseOf g
+      let nnz := ((List.range g.n).map fun i => (g.row i).length).sum
+      some (showOptList (betweennessFit (α := Rat) g.n nnz (edgeOfDense m) (nbrOf g) (isSymmetric g.n (wOf m))))) "bad-args"
+  /- betweenness: `directed` = 1 selects the ordered-pair sum (no halving) -/
+  | "c04.spec_betweenness", [n, ip, ix, dt, directed, x, eps] => some <| Option.getD (do
+      let g ← graphRat? n ip ix dt
+      let dir ← bool? directed
+      let x ← ratList? x
+      let eps ← rat? eps
+      let m := denseOf g
+      let e := edgeOfDense m
+      let want := if dir then RankSpec.dependencySum g.n e else RankSpec.betweennessSpec g.n e
+      some (closeTo g.n x want eps)) "bad-args"
+  /- HITS: the sign choice and clipping, exactly -/
+  | "c04.hits_post", [v] => some <| Option.getD (do
+      let v ← ratList? v
+      some ("ok " ++ showRatList (hitsPost v))) "bad-args"
+  /- HITS: (h, a) is a non-negative unit singular pair of A for sigma, and sigma is the largest singular value
+     (sigma(1+eps))^2 I - AᵀA positive definite) -/
+  | "c04.spec_hits", [nr, nc, ip, ix, dt, h, a, sigma, eps] => some <| Option.getD (do
+      let c ← csrRat? nr nc ip ix dt
+      let h ← ratList? h
+      let a ← ratList? a
+      let sigma ← rat? sigma
+      let eps ← rat? eps
+      if !c.WF then none else
+      let A := denseRect c
+      let r := c.nRow
+      let k := c.nCol
+      let at_ := fun i j => (A.getD i #[]).getD j 0
+      if h.length != r || a.length != k then some "fails length" else
+      let nonneg := h.all (fun x => decide (0 ≤ x)) && a.all (fun x => decide (0 ≤ x))
+      let n2h := (h.map fun x => x * x).sum
+      let n2a := (a.map fun x => x * x).sum
+      let units := Rat.abs (n2h - 1) ≤ eps && Rat.abs (n2a - 1) ≤ eps
+      let resA := (List.range r).all fun i =>
+        Rat.abs (((List.range k).map fun j => at_ i j * a.getD j 0).sum - sigma * h.getD i 0) ≤ eps * (1 + sigma)
+      let resT := (List.range k).all fun j =>
+        Rat.abs (((List.range r).map fun i => at_ i j * h.getD i 0).sum - sigma * a.getD j 0) ≤ eps * (1 + sigma)
+      let s2 := (sigma * (1 + eps) + eps) * (sigma * (1 + eps) + eps)
+      let G : Array (Array Rat) := (Array.range k).map fun j => (Array.range k).map fun l =>
+        (if j = l then s2 else 0) - ((List.range r).map fun i => at_ i j * at_ i l).sum
+      let top := isPosDef k G
+      some (if nonneg && units && resA && resT && top then "holds"
+            else s!"fails nonneg={nonneg} unit={units} Aa=sh:{resA} Ath=sa:{resT} top={top}")) "bad-args"
   | _, _ => none
 
 end SkNet.Drive.C04
